@@ -350,9 +350,7 @@ def run(chk):
     sc, cif = _load()
     from symex import loader
 
-    chk.functions = loader.describe([cif._quotes_for_string_value, cif._format_value, cif._encode_non_ascii, cif._write_comment, cif.Chunk.write,
-                                     cif.Loop.write, cif.Block.write, cif._write_multi, cif._serialize_authors, cif._serialize_roles,
-                                     cif.CIF._assemble_authors, cif._make_reduced_powder_loop])
+    chk.functions = loader.describe_exprs(['cif._quotes_for_string_value', 'cif._format_value', 'cif._encode_non_ascii', 'cif._write_comment', 'cif.Chunk.write', 'cif.Loop.write', 'cif.Block.write', 'cif._write_multi', 'cif._serialize_authors', 'cif._serialize_roles', 'cif.CIF._assemble_authors', 'cif._make_reduced_powder_loop'], {**globals(), **locals()})
     run_jobs(chk, job_value, CONTEXTS)
     run_jobs(chk, job_misc, ['comments', 'nonascii', 'blockname', 'su', 'authors'])
     chk.bounds = {'strings': 'z3 strings of unbounded length over printable ASCII + tab + newline', 'loops': '1x2, 2x1 and 2x2 (one symbolic column)',
